@@ -128,6 +128,10 @@ def main():
             # Gateway.exit() defers the waiting "to when group.terminate() is called"
             gws[gid].exit()
             emit(event="pre_exit", id=gid)
+            if gid in case.get("pre_exit_replace", ()):
+                # the id is free again: a replacement takes it (the retired member still has to be waited for / killed)
+                group.makegateway("popen//id=%s" % gid)
+                emit(event="replaced", id=gid)
         t0 = time.monotonic()
         group.terminate(case["timeout"])
         emit(event="terminate_done", seconds=round(time.monotonic() - t0, 3), len_group=len(group))
@@ -178,6 +182,28 @@ def main():
                 group.makegateway("popen//chdir=%s" % os.path.abspath(sys.argv[1]))
             elif variant == "nice_not_a_number":
                 group.makegateway("popen//nice=abc")
+            elif variant == "concurrent_auto":
+                import threading
+
+                outs = []
+                go = threading.Barrier(6)
+
+                def make():
+                    try:
+                        go.wait(10)
+                        outs.append(("ok", group.makegateway("popen").id))
+                    except BaseException as e:  # noqa
+                        outs.append(("failed", type(e).__name__ + ": " + str(e)[:120]))
+
+                ths = [threading.Thread(target=make) for _ in range(6)]
+                for t in ths:
+                    t.start()
+                for t in ths:
+                    t.join(60)
+                bad = [o for o in outs if o[0] != "ok"]
+                ids = [o[1] for o in outs if o[0] == "ok"]
+                if bad or len(set(ids)) != len(ids) or len(outs) != 6:
+                    outcome = "%d of 6 concurrent makegateway calls failed: %s; ids %s" % (len(bad) + 6 - len(outs), bad[:2], ids)
             elif variant == "chdir_missing_parent":
                 group.makegateway("popen//python=%s//chdir=/nonexistent-verif-dir/sub/dir" % sys.executable)
         except BaseException as e:  # noqa
